@@ -83,6 +83,9 @@ func register(id string, f checkFn) { checks[id] = f }
 
 var cliOverlay map[string][]byte
 
+// thoroughTier raises the explorer bounds and extends inventories to the excluded packages.
+var thoroughTier bool
+
 func usage() {
 	fmt.Fprintln(os.Stderr, "usage: ledgerlint check <Cxx> [quick|thorough] [-overlay file.json] [-repo dir] | replay <file> | selftest [ids] | list")
 	os.Exit(2)
@@ -119,6 +122,7 @@ func runCheck(id, tier string, overlay map[string][]byte) (code int) {
 
 // runCheckEnv runs one check in a (possibly shared) environment: checkall loads each repo module once.
 func runCheckEnv(id, tier string, e *Env) (code int) {
+	thoroughTier = tier == "thorough"
 	f, ok := checks[id]
 	if !ok {
 		fmt.Fprintf(os.Stderr, "no check registered for %s\n", id)
@@ -142,6 +146,7 @@ func runCheckEnv(id, tier string, e *Env) (code int) {
 		f(c, e)
 	}()
 	if tier == "thorough" {
+		thoroughInventory(c, e)
 		c.Extra["sensitivity"] = runSensitivity(id)
 	}
 	return c.Finish()
